@@ -1,6 +1,7 @@
 # Bounded stand-in (NOT a proof) for the unit PlaybackStudio._group_recording_ids_by_categories, used only when the deductive unit is
 # undecided on the current tree: exhaustive enumeration of all explicit id lists up to length 6 over 3 categories (one a prefix of another)
-# against the same contract: each category gets exactly its ids in input order; categories sorted.  exit 0 clean, 1 violated (prints the input).
+# against the contract: each category gets exactly its ids in input order; the order of the categories is a function of the set of ids (the same ids
+# listed in reverse give the same category order).  exit 0 clean, 1 violated (prints the input).
 import itertools, json, sys
 sys.path.insert(0, '/repo') if '/repo' not in sys.path else None
 from playback.studio.studio import PlaybackStudio
@@ -11,17 +12,28 @@ class Rec(object):
     tape_cassette = InMemoryTapeCassette()
 
 
-BOUND = 6; CATS = ['A', 'AB', 'B']
+BOUND = 6; CATS = ['A', 'AB', 'B', 'a']
+
+
+def group(ids):
+    st = PlaybackStudio(categories=[], equalizer_tuner=None, tape_recorder=Rec(), recording_ids=list(ids))
+    return st._group_recording_ids_by_categories()
+
+
 n = 0
 for ln in range(1, BOUND + 1):
     for combo in itertools.product(CATS, repeat=ln):
         ids = ['%s/%d' % (c, i) for i, c in enumerate(combo)]; n += 1
-        st = PlaybackStudio(categories=[], equalizer_tuner=None, tape_recorder=Rec(), recording_ids=ids)
-        got = st._group_recording_ids_by_categories()
+        got = group(ids)
         want = {}
         for i in ids:
             want.setdefault(i.split('/')[0], []).append(i)
-        if list(got.keys()) != sorted(want) or {k: list(v) for k, v in got.items()} != want:
-            print(json.dumps({'input': ids, 'got': {k: list(v) for k, v in got.items()}, 'expected': want})); sys.exit(1)
-print(json.dumps({'bound': 'all id lists of length <= %d over categories %s' % (BOUND, CATS), 'cases': n}))
+        if {k: list(v) for k, v in got.items()} != want:
+            print(json.dumps({'what': 'a category did not get exactly its ids in input order', 'input': ids, 'got': {k: list(v) for k, v in got.items()}, 'expected': want})); sys.exit(1)
+        # deterministic order of the per-category report: the same SET of ids listed in another order (here: reversed) gives the same category order
+        other = list(reversed(ids)); got2 = group(other)
+        if list(got.keys()) != list(got2.keys()):
+            print(json.dumps({'what': 'the order of the categories depends on the order the ids are listed in', 'ids': ids, 'category_order': list(got.keys()),
+                              'same_ids_reversed': other, 'category_order_reversed': list(got2.keys())})); sys.exit(1)
+print(json.dumps({'bound': 'all id lists of length <= %d over categories %s (one a prefix of another, two equal up to letter case), each also reversed' % (BOUND, CATS), 'cases': n}))
 sys.exit(0)
